@@ -440,6 +440,44 @@ def oracle_realistic(ctx, rng, problems, n):
             ctx.case(key=("cube", str(p)), nontrivial=True, kind="oracle:cube")
         except Exception as e:  # noqa: BLE001
             problems.append((f"cube twin raised {type(e).__name__}: {str(e)[:150]}", rec, None))
+    # the two sky axes leave the transform in different angular units (deg / arcsec), frame in (deg, deg) or mixed
+    for k in range(max(3, n // 3)):
+        a, b = rng.uniform(5e-4, 2e-3), rng.uniform(0.01, 0.05)          # deg / pix, arcsec / pix
+        l0, b0 = rng.uniform(0.1, 300), rng.uniform(10, 80)              # deg, arcsec
+        ulon, ulat = rng.choice([(u.deg, u.arcsec), (u.arcsec, u.deg), (u.deg, u.arcmin)])
+        fun = rng.choice([(u.deg, u.deg), (u.deg, u.arcsec), (u.arcsec, u.arcsec)])
+
+        def mkm(units):
+            if units:
+                tr = (models.Linear1D(slope=(a * u.deg).to(ulon) / u.pix, intercept=(l0 * u.deg).to(ulon))
+                      & models.Linear1D(slope=(b * u.arcsec).to(ulat) / u.pix, intercept=(b0 * u.arcsec).to(ulat)))
+            else:
+                tr = (models.Linear1D(slope=(a * u.deg).to_value(fun[0]), intercept=(l0 * u.deg).to_value(fun[0]))
+                      & models.Linear1D(slope=(b * u.arcsec).to_value(fun[1]), intercept=(b0 * u.arcsec).to_value(fun[1])))
+            det = cf.Frame2D(name="detector")
+            sky = cf.CelestialFrame(reference_frame=coord.ICRS(), name="sky", unit=fun)
+            return wcs.WCS([(det, tr), (sky, None)])
+        p = [rng.uniform(1, 50), rng.uniform(1, 50)]
+        want = (l0 + a * p[0], (b0 + b * p[1]) / 3600.0)
+        rec = dict(family="mixed-axis-units", transform_units=[str(ulon), str(ulat)], frame_units=[str(x) for x in fun], pixel=p,
+                   expected_deg=list(want))
+        try:
+            for w, lab in ((mkm(False), "unit-free"), (mkm(True), "unit-carrying")):
+                sc = w.pixel_to_world(*p)
+                got = (float(sc.spherical.lon.deg), float(sc.spherical.lat.deg))
+                if not np.allclose(got, want, rtol=1e-10, atol=1e-12):
+                    problems.append((f"mixed axis units, {lab}: pixel_to_world gives (lon, lat) = {got} deg, the transform gives {want} deg "
+                                     f"(transform units {ulon}/{ulat}, frame units {fun[0]}/{fun[1]})", rec, None))
+                vals = num(w.pixel_to_world_values(*p))
+                wantv = [(want[0] * u.deg).to_value(fun[0]), (want[1] * u.deg).to_value(fun[1])]
+                if not np.allclose(vals, wantv, rtol=1e-10):
+                    problems.append((f"mixed axis units, {lab}: pixel_to_world_values = {vals.tolist()}, expected {wantv} in frame units", rec, None))
+                back = num(w.world_to_pixel(sc))
+                if not np.allclose(back, p, atol=1e-6):
+                    problems.append((f"mixed axis units, {lab}: world_to_pixel(pixel_to_world(p)) = {back.tolist()}", rec, None))
+            ctx.case(key=("mixedaxis", str(rec)), nontrivial=True, kind="oracle:mixed-axis-units")
+        except Exception as e:  # noqa: BLE001
+            problems.append((f"mixed-axis-units twin raised {type(e).__name__}: {str(e)[:150]}", rec, None))
 
 
 def run(ctx):
